@@ -314,6 +314,18 @@ fn patterns_of_len(len: usize, idx: usize) -> String {
     s
 }
 
+fn macro_probe_pool() -> Vec<String> {
+    let mut pats: Vec<String> = VARS.iter().map(|v| format!("[{v}] x")).collect();
+    pats.extend(VARS.iter().map(|v| format!("$ab {v} ${{a}}")));
+    pats
+}
+
+fn macro_probe_op(p: &String) -> String {
+    let mut out: Vec<String> = (0..scopes().len()).map(|s| format!("{:?}", check_pattern(p, s))).collect();
+    out.push(format!("{:?}", check_record(&record(2 + 3 * (p.len() % 7)))));
+    out.join("|")
+}
+
 pub fn run(tier: Tier) -> i32 {
     let mut run = Run::new("C20", tier, "exploration");
     let maxlen = tier.pick(6usize, 7);
@@ -321,6 +333,9 @@ pub fn run(tier: Tier) -> i32 {
     run.assume("text of a value that is neither Str nor Ref is Value::to_string() (delegated to the library; C20 is about which tag and which substitution)");
     run.assume("macro names are [a-z][A-Za-z0-9_]* taken greedily; $<key> has a non-empty key without '>'");
     crate::engine::quiet_panics();
+    if super::common::probe_first(&mut run, "dis-macro", &macro_probe_pool(), &macro_probe_op, &|p: &String| json!(p)) {
+        return run.finish(&replay);
+    }
     let l = par_for(390_625, |code, local| {
         let rec = record(code);
         local.eval();
@@ -438,6 +453,9 @@ pub fn run(tier: Tier) -> i32 {
 }
 
 pub fn replay(case: &J) -> Verdict {
+    if case["free_running"] == "dis-macro" {
+        return super::common::replay_probe(&macro_probe_pool(), &macro_probe_op, &|p: &String| json!(p));
+    }
     if let Some(p) = case["pattern"].as_str() {
         let s = case["scope"].as_u64().unwrap_or(0) as usize;
         return check_pattern(p, s).map_err(|(stage, d)| (format!("{stage}:{}", pattern_class(p)), d));
